@@ -1,8 +1,9 @@
 """Driver for specs/Auth/Restrict.tla (C05, clause "the restrictions attached
 to the accepted credential are the ones enforced afterwards").
 
-A table row of the specification is an abstract credential (kind,
-authorized_keys options, certificate contents, client address, user name) plus
+A table row of the specification is an abstract credential (method,
+authorized_keys entries, certificate contents, application callbacks, client
+address, user name) plus
 the specification's verdicts.  `run_case` materialises the credential with
 real keys / certificates / authorized_keys text, starts a real asyncssh server
 on the deterministic loop, lets a real asyncssh client authenticate with the
@@ -141,8 +142,8 @@ class _TCPSession(asyncssh.SSHTCPSession):
 
 
 def run_case(case, ops=PERM_OPS, requests=(), dests=(), client_env=None):
-    """case: dict(kind, entries=[entry...], cert=None|dict, cb_key=bool,
-    cb_ca=bool, user, addr).  ops: permission-guarded operations to attempt;
+    """case: dict(method='publickey'|'password', entries=[entry...],
+    cert=None|dict, cb_key=bool, cb_ca=bool, user, addr).  ops: permission-guarded operations to attempt;
     requests: session requests ('exec:<cmd>', 'shell', 'subsystem:<name>');
     dests: extra direct-tcpip destinations 'host:port' (permitopen rows)."""
     loop = new_loop()
@@ -230,9 +231,18 @@ def run_case(case, ops=PERM_OPS, requests=(), dests=(), client_env=None):
     lines = [entry_line(e, e.get('key', 'ca' if e.get('ca') else 'user'))
              for e in case.get('entries', ())]
     skw = {}
+    out = {'accepted': False, 'server_accepted': False, 'granted': None,
+           'ops': {}, 'started': {}, 'dests': {}, 'errors': [], 'cb': [],
+           'loop_exceptions': []}
     if lines:
-        skw['authorized_client_keys'] = asyncssh.import_authorized_keys(
-            '\n'.join(lines) + '\n')
+        try:
+            skw['authorized_client_keys'] = asyncssh.import_authorized_keys(
+                '\n'.join(lines) + '\n')
+        except Exception as exc:        # pylint: disable=broad-except
+            out['errors'].append(f'import_authorized_keys: '
+                                 f'{type(exc).__name__}: {exc}')
+            close_loop(loop)
+            return out
     ckw = dict(client_keys=None, agent_path=None)
     if method == 'password':
         ckw['password'] = 'pw-' + user
@@ -249,8 +259,6 @@ def run_case(case, ops=PERM_OPS, requests=(), dests=(), client_env=None):
     tmp = scratch()
     old_tmp = tempfile.tempdir
     tempfile.tempdir = tmp
-    out = {'accepted': False, 'ops': {}, 'started': {}, 'dests': {},
-           'errors': []}
 
     async def raw_requests(conn, names):
         """pty-req / x11-req / auth-agent-req on ONE real client session
@@ -379,7 +387,7 @@ def run_case(case, ops=PERM_OPS, requests=(), dests=(), client_env=None):
         loop.run_until_complete(go())
     except Deadlock:
         out['errors'].append('hung')
-    except (asyncssh.Error, OSError) as exc:
+    except Exception as exc:            # pylint: disable=broad-except
         out['errors'].append(f'{type(exc).__name__}: {exc}')
     finally:
         tempfile.tempdir = old_tmp
@@ -452,7 +460,9 @@ def to_case(cred):
         kw['requests'] = [req_name('exec', 'rc'), 'shell', 'subsystem:sub']
         if cred['cenv'] != '-':
             kw['client_env'] = {'N': env_text(cred['cenv'])}
-    if sec == 'open':
+    if sec == 'mix':
+        kw['requests'] = [req_name('exec', 'rc'), 'shell', 'subsystem:sub']
+    if sec in ('open', 'mix'):
         # the generic destination is not on any permitopen list
         kw['ops'] = [o for o in PERM_OPS if o != 'direct-tcpip']
         kw['dests'] = ['h1:80', 'h1:81', 'h2:22', 'h2:80', 'h3:80']
